@@ -81,6 +81,7 @@ type Person struct {
 	Roles  StrSet         `json:"roles"`
 	Nums   StrSet         `json:"nums"`
 	Places StrSet         `json:"places"`
+	Peers  StrSet         `json:"peers"`
 	Tags   map[string]Val `json:"tags,omitempty"`
 	NoTags bool           `json:"noTags,omitempty"` // no tags bucket at all
 }
@@ -160,6 +161,7 @@ func NewScanSchema(variant int) *ScanSchema {
 	p.AddFkSymbol("boss", p)
 	p.AddFkSymbol("home", s.Places)
 	p.AddFkSetSymbol("places", s.Places)
+	p.AddFkSetSymbol("peers", p)
 	p.AddMapSymbol("tags", ast.NodeTypeAnyType, "tags", s.prefixOf("tags")...)
 
 	q := s.Places
@@ -234,6 +236,7 @@ func (s *ScanSchema) Write(db *bbolt.DB, d *Dataset) error {
 			setSet(b, "roles", pe.Roles)
 			setSet(b, "nums", pe.Nums)
 			setSet(b, "places", pe.Places)
+			setSet(b, "peers", pe.Peers)
 			if !pe.NoTags {
 				target := b
 				if pre := s.prefixOf("tags"); len(pre) > 0 {
